@@ -39,7 +39,11 @@ func H04Filter() {
 	n := vndParam("results")
 	for k := 0; k < n; k++ {
 		u := vndChoice("unit", len(h04fUnits))
-		in := "BenchmarkX 1 5 " + h04fUnits[u] + "\n"
+		val := "5"
+		if k == 0 {
+			val = []string{"5", "0", "-0", "+Inf", "NaN"}[vndChoice("value", 5)] // the verdict does not depend on the value
+		}
+		in := "BenchmarkX 1 " + val + " " + h04fUnits[u] + "\n"
 		r := benchfmt.NewReader(bytes.NewReader([]byte(in)), "f")
 		if !r.Scan() {
 			panic("no record")
